@@ -339,6 +339,21 @@ func extra9C19(c *Ctx) {
 	g := c.G(f)
 	isKeyTest := func(e ast.Expr) (key string, negated bool, ok bool) {
 		e = ast.Unparen(e)
+		// a local that holds the test: hasMessages := slices.Contains(vars, "messages")
+		resolve := func(x ast.Expr) ast.Expr {
+			if id, isId := ast.Unparen(x).(*ast.Ident); isId {
+				if v, isV := info.Uses[id].(*types.Var); isV {
+					if rhs, _, cnt := singleDef(info, f.Body, v); cnt == 1 && rhs != nil {
+						return ast.Unparen(rhs)
+					}
+				}
+			}
+			return ast.Unparen(x)
+		}
+		e = resolve(e)
+		if u, isU := e.(*ast.UnaryExpr); isU && u.Op == token.NOT {
+			e = &ast.UnaryExpr{Op: token.NOT, X: resolve(u.X), OpPos: u.OpPos}
+		}
 		if u, isU := e.(*ast.UnaryExpr); isU && u.Op == token.NOT {
 			k, n2, ok2 := "", false, false
 			if call, isC := ast.Unparen(u.X).(*ast.CallExpr); isC && core.CalleeName(info, call) == "slices.Contains" && len(call.Args) == 2 {
